@@ -151,7 +151,45 @@ func init() {
 		Note:      trusted,
 		DesignRef: "DESIGN.md §3 OR-1/T12, §4 C16",
 	})
-	for _, id := range []string{"C03", "C04", "C09", "C11", "C12", "C15", "C18"} {
+	property(&Property{
+		ID:    "C11",
+		Rules: []string{"MO", "PL-1", "PL-2", "PL-3"},
+		Explain: "MO: every range over a Go map in the library (inventory on each run) is order-insensitive by construction (the body only inserts/deletes entries keyed by the iteration key, counts, calls functions that can neither panic nor write shared memory — decided by an effect summary over the call graph — or collects keys that are sorted before use) or is in the reviewed table with the reason why the order cannot reach a verdict, error code, position, AST or example; a reviewed loop whose exits/writes/effectful calls change is reported again. PL-1: no alias of a pooled buffer's storage is returned, stored or captured by a function that puts the buffer back (the Example() slice must not be overwritten by later calls). PL-2: every field of the pooled loader is assigned in reset(). PL-3: json.Document rewinds before and after Check/Len.",
+		Assume: []string{
+			"history independence beyond the enumerated once/pool/rewind objects and stability of returned AST values are not decided",
+			"the reasons in the reviewed map-range table are a reading of the pinned tree",
+		},
+		Technique: "static analysis: map-range inventory with effect summaries (AST+types+SSA), escape/alias rule for pooled buffers (SSA def-use), reset completeness, dominance",
+		Level:     "Exhaustive over all map ranges / pool users / pooled structs of the current tree: structural necessary conditions of determinism and history independence.",
+		Note:      trusted,
+		DesignRef: "DESIGN.md §3 MO/PL, §4 C11",
+	})
+	property(&Property{
+		ID:    "C12",
+		Rules: []string{"SW-1", "PL-1", "OM-lock"},
+		Explain: "SW-1: no function reachable from (*Schema).validate or (*exampleBuilder).Build (VTA call graph; callbacks accounted at the call sites of higher-order helpers) stores to a field, slice element or map of a schema / constraint / AST type or to a package variable, except into objects it has just allocated — validation and example building only read the shared compiled schema. PL-1: the pooled example buffer's storage does not escape (the concurrent-Example race). OM-lock: the ordered maps hold their RWMutex around every access.",
+		Assume: []string{
+			"compile-time sharing of added types between root schemas (in-place allOf expansion of an added type used by two roots) is NOT covered by these rules — a known weakness of the pinned tree that the property names",
+			"exactly-once initialisation is inherited from sync.Once; races inside third-party code (reggen) are not examined; absence of deadlock is not decided",
+		},
+		Technique: "static analysis: write-effect analysis over the VTA-reachable set of the validation/example entry points (go/ssa), pooled-buffer escape rule, lock discipline from abstract interpretation",
+		Level:     "Read-only-ness of the validation and example paths with respect to shared schema objects, exhaustive over the reachable functions of the current tree: a necessary condition of race-free concurrent use.",
+		Note:      trusted,
+		DesignRef: "DESIGN.md §3 SW/PL/OM, §4 C12",
+	})
+	property(&Property{
+		ID:    "C15",
+		Rules: []string{"EX-shape", "PL-1"},
+		Explain: "EX-shape: the object and array example builders are interpreted abstractly for containers with 0..3 children, every child either emitted or omitted (recursion cut-off): the recorded sequence of buffer writes must be an opening bracket, the emitted elements in order exactly once with exactly one separator between two emitted elements and none dangling, and a closing bracket; object keys must be written from their source token or through an encoder, never from the decoded key text. PL-1: the returned bytes do not alias the pooled buffer.",
+		Assume: []string{
+			"that the emitted value validates against its schema, the choice among or-alternatives and the recursion cut-off depth are not decided",
+		},
+		Technique: "static analysis: finite-domain abstract interpretation of the example builders (children emitted/omitted as atoms) with a well-formedness check of the write sequence",
+		Level:     "Exhaustive over child counts 0..3 and all emitted/omitted patterns: well-formedness of the assembled container text, a necessary condition of emitting well-formed JSON.",
+		Note:      trusted,
+		DesignRef: "DESIGN.md §3 EX-2/KE-1, §4 C15",
+	})
+	for _, id := range []string{"C03", "C04", "C09", "C18"} {
 		NotApplicable[id] = "engine for this property's structural clauses not finished yet (see DESIGN.md §4); not claimed until its rules run"
 	}
 	NotApplicable["C14"] = "an arithmetic relation between a returned length and acceptance of a prefix over all inputs; no clause has a structural form that is a genuine necessary condition and survives behaviour-preserving edits (DESIGN.md §4 C14)"
